@@ -104,6 +104,9 @@ class Shim(types.ModuleType):
             def rowcount(s):
                 return s._c.rowcount
 
+            def __getattr__(s, name):          # everything else (lastrowid, description, …) is the real cursor's
+                return getattr(s._c, name)
+
         class Conn:
             def cursor(s):
                 return Cur()
@@ -125,6 +128,9 @@ class Shim(types.ModuleType):
 
             def __setattr__(s, k, v):
                 setattr(conn, k, v)
+
+            def __getattr__(s, name):          # in_transaction, isolation_level, total_changes, … are the real connection's
+                return getattr(conn, name)
 
             def __enter__(s):
                 return s
